@@ -1,6 +1,11 @@
 package iface
 
 import (
+	"bytes"
+	"encoding/binary"
+	"fmt"
+	"sync"
+	"sync/atomic"
 	"testing"
 
 	"github.com/tencent/goom/internal/zzverif/vh"
@@ -10,6 +15,15 @@ func TestVerifC15(t *testing.T) {
 	out := vh.OpenOut()
 	defer out.Close()
 	for _, op := range vh.ReadOps() {
+		if len(op.Toks) == 4 && op.Toks[0] == "conc" && op.Toks[1] == "amd64.stub" {
+			out.Put(op.Idx, "%s", c15Conc(vh.U64(op.Toks[2]), int(vh.U64(op.Toks[3])), func(dx uint64) []byte { return jmpWithRdx(uintptr(dx)) },
+				func(dx uint64) []byte {
+					b := []byte{0x48, 0xBA, 0, 0, 0, 0, 0, 0, 0, 0, 0xFF, 0x22}
+					binary.LittleEndian.PutUint64(b[2:], dx)
+					return b
+				}))
+			continue
+		}
 		if len(op.Toks) != 4 || op.Toks[0] != "emit" || op.Toks[1] != "amd64.stub" {
 			continue
 		}
@@ -17,4 +31,37 @@ func TestVerifC15(t *testing.T) {
 		bs := jmpWithRdx(to)
 		out.Put(op.Idx, "bytes=%s %s", vh.Hex(bs), vh.RunX86(bs, from, 64))
 	}
+}
+
+
+// c15Conc calls emit from g goroutines released from a spin barrier, each on its own destinations, and compares every
+// result (after all goroutines are done, so a shared buffer shows) with the encoding written out by hand.
+func c15Conc(base uint64, g int, emit func(uint64) []byte, want func(uint64) []byte) string {
+	const k = 400
+	res := make([][][]byte, g)
+	var ready int32
+	var wg sync.WaitGroup
+	for i := 0; i < g; i++ {
+		wg.Add(1)
+		go func(i int) {
+			defer wg.Done()
+			res[i] = make([][]byte, k)
+			atomic.AddInt32(&ready, 1)
+			for atomic.LoadInt32(&ready) < int32(g) {
+			}
+			for j := 0; j < k; j++ {
+				res[i][j] = emit(base + uint64(i)<<32 + uint64(j)*0x10001)
+			}
+		}(i)
+	}
+	wg.Wait()
+	for i := 0; i < g; i++ {
+		for j := 0; j < k; j++ {
+			dx := base + uint64(i)<<32 + uint64(j)*0x10001
+			if !bytes.Equal(res[i][j], want(dx)) {
+				return fmt.Sprintf("conc mismatch dx=%#x got=%s", dx, vh.Hex(res[i][j]))
+			}
+		}
+	}
+	return "conc ok"
 }
